@@ -1244,4 +1244,327 @@ theorem call_acyclic (env : Env) (hw : WFE env) (links kids : Uid → List Uid) 
   · exact hw.forest x h'
   · exact hR x l (callE_source h) hl (h' l hl)
 
+/-! ### the pre-check -/
+
+/-- the leaf-level waits-for relation -/
+abbrev waitsE (env : Env) : Uid → Uid → Prop := fun a b => b ∈ waitsFor env a
+
+theorem checkLoops_ok (env : Env) (mem : List Uid) (h : checkLoops env mem = .ok ()) :
+    ∀ l ∈ mem, (env.info l).children.isEmpty = true → ¬ TC (waitsE env) l l := by
+  unfold checkLoops at h
+  simp only [bind, Except.bind] at h
+  split at h
+  · cases h
+  · split at h
+    · cases h
+    · rename_i v2 h2
+      intro l hl hleaf
+      exact loopsFrom_sound (waitsFor env) _ _ v2 h2 l (List.mem_filter.2 ⟨hl, hleaf⟩)
+
+theorem checkLoops_nocrash (env : Env) (hw : WFE env) (mem : List Uid) (hlt : ∀ x ∈ mem, x < env.n) :
+    NoCrash (checkLoops env mem) := by
+  unfold checkLoops
+  refine NoCrash.bind (loopsFold_nocrash _ env.n (fun a b h => hw.predLt a b h) mem hlt) ?_
+  intro _ _
+  refine NoCrash.bind (loopsFold_nocrash _ env.n (waitsFor_lt env hw) _ ?_) (fun _ _ => NoCrash.pure _)
+  intro t ht
+  exact hlt t (List.mem_filter.1 ht).1
+
+/-- a leaf-level cycle is diagnosed -/
+theorem checkLoops_cycle (env : Env) (hw : WFE env) (mem : List Uid) (hlt : ∀ x ∈ mem, x < env.n)
+    (l : Uid) (hl : l ∈ mem) (hleaf : (env.info l).children.isEmpty = true) (hcyc : TC (waitsE env) l l) :
+    checkLoops env mem = .error .runtime := by
+  rcases (checkLoops_nocrash env hw mem hlt).cases with ⟨a, ha⟩ | h
+  · cases a
+    exact absurd hcyc (checkLoops_ok env mem ha l hl hleaf)
+  · exact h
+
+/-! ### the pass invariant -/
+
+/-- what the passes keep: the ledger is sound, every calendar of the table is total, done tasks are complete -/
+def PassInv (env : Env) (σ : SS) : Prop := LedgerOK env σ ∧ CalsOK σ.res ∧ DoneFull σ
+
+theorem fwdPlace_passInv (env : Env) (σ σ' : SS) (t : Uid) (v : Time) (hi : PassInv env σ) (ht : t ∉ σ.done)
+    (h : fwdPlace env σ t v = .ok σ') : PassInv env σ' := by
+  obtain ⟨he, hd⟩ := fwdPlace_ext env σ σ' t v ht h
+  refine ⟨fwdPlace_ledger env σ σ' t v hi.1 h, ?_, place_doneFull σ σ' t hi.2.2 he hd (fwdPlace_full env σ σ' t v h)⟩
+  obtain ⟨new, σm, hs, rfl, _⟩ := fwdPlace_stage env σ σ' t v h
+  exact place_cals_of_stage env σ σm t new hi.2.1 hs
+
+theorem bwdPlace_passInv (env : Env) (σ σ' : SS) (t : Uid) (m v : Time) (hi : PassInv env σ) (ht : t ∉ σ.done)
+    (h : bwdPlace env σ t m v = .ok σ') : PassInv env σ' := by
+  obtain ⟨he, hd⟩ := bwdPlace_ext env σ σ' t m v ht h
+  refine ⟨bwdPlace_ledger env σ σ' t m v hi.1 h, ?_,
+    place_doneFull σ σ' t hi.2.2 he hd (bwdPlace_full env σ σ' t m v h)⟩
+  obtain ⟨new, σm, hs, rfl, _⟩ := bwdPlace_stage env σ σ' t m v h
+  exact place_cals_of_stage env σ σm t new hi.2.1 hs
+
+theorem place_kids_full (env : Env) (σ : SS) (t : Uid) (hi : PassInv env σ) (ht : t ∉ σ.done)
+    (hk : ∀ c ∈ (env.info t).children, c ∈ σ.done) : ∀ c ∈ (env.info t).children, c ≠ t ∧ Full (σ.f c) :=
+  fun c hc => ⟨fun h => ht (h ▸ hk c hc), hi.2.2 c (hk c hc)⟩
+
+theorem PassInv.init (env : Env) (σ : SS) (hr : σ.rows = []) (hd : σ.done = []) (hc : CalsOK σ.res) :
+    PassInv env σ :=
+  ⟨LedgerOK.init env σ hr, hc, fun x hx => by rw [hd] at hx; cases hx⟩
+
+/-! ### no cycle of calls after the pre-check -/
+
+theorem fwd_call_acyclic (env : Env) (hw : WFE env) (mem : List Uid) (hm : members env = some mem)
+    (hwait : ∀ l ∈ mem, (env.info l).children.isEmpty = true → ¬ TC (waitsE env) l l) :
+    ∀ x, ¬ TC (callE env (fun u => (env.info u).preds) (fun u => (env.info u).children) (· ∈ mem)) x x := by
+  refine call_acyclic env hw _ _ _ (waitsE env) (fun _ _ h => h) ?_ ?_
+  · intro a b ha hb _ l l' hl hl'
+    exact waitsFor_mem env hw mem hm ha hb hl hl'
+  · intro x l hx hl
+    refine hwait l ?_ hl.1
+    rcases hl.2 with rfl | h
+    · exact hx
+    · exact members_desc env mem hm hx h
+
+theorem bwd_call_acyclic (env : Env) (hw : WFE env) (mem : List Uid) (hm : members env = some mem)
+    (hwait : ∀ l ∈ mem, (env.info l).children.isEmpty = true → ¬ TC (waitsE env) l l) :
+    ∀ x, ¬ TC (callE env (fun u => (env.info u).succs) (fun u => (env.info u).children.reverse) (· ∈ mem)) x x := by
+  have hfl : ∀ t, (env.info t).member = true ↔ t ∈ mem := fun t => by
+    rw [← memberList_eq env mem hm]; exact hw.flags t
+  refine call_acyclic env hw _ _ _ (fun l l' => waitsE env l' l) (fun _ _ h => List.mem_reverse.1 h) ?_ ?_
+  · intro a b ha hb hmb l l' hl hl'
+    have hbm : b ∈ mem := (hfl b).1 (hmb.trans ((hfl a).2 ha))
+    exact waitsFor_mem env hw mem hm hbm ((hw.sym a b).2 hb) hl' hl
+  · intro x l hx hl hcyc
+    refine hwait l ?_ hl.1 (TC.flip hcyc)
+    rcases hl.2 with rfl | h
+    · exact hx
+    · exact members_desc env mem hm hx h
+
+/-! ### the passes over the roots -/
+
+theorem fwdRun_nocrash (env : Env) (f0 : Uid → Fields) (res0 : List (Option Nat × Cal)) (hw : WFE env)
+    (hc : CalsOK res0) (mem : List Uid) (hm : members env = some mem)
+    (hwait : ∀ l ∈ mem, (env.info l).children.isEmpty = true → ¬ TC (waitsE env) l l) :
+    NoCrash (fwdRun env f0 res0) := by
+  have hfl : ∀ t, (env.info t).member = true ↔ t ∈ mem := fun t => by
+    rw [← memberList_eq env mem hm]; exact hw.flags t
+  have hkids : ∀ t c, t ∈ mem → c ∈ (env.info t).children → c ∈ mem := fun t c ht hc =>
+    members_children env mem hm t ht c hc
+  have hlinks : ∀ t p, t ∈ mem → p ∈ (env.info t).preds → (env.info p).member = (env.info t).member → p ∈ mem :=
+    fun t p ht _ he => (hfl p).1 (he.trans ((hfl t).2 ht))
+  unfold fwdRun
+  rw [hm]
+  refine NoCrash.bind (NoCrash.pure _) ?_
+  intro mem' hmem'
+  cases hmem'
+  refine NoCrash.bind ?_ (fun _ _ => NoCrash.pure _)
+  refine passList_nocrash (PassInv env) _ _ ?_ _ (PassInv.init env _ rfl rfl hc)
+  intro σ r hr hi
+  have hrm : r ∈ mem := members_root env mem hm r hr
+  constructor
+  · rw [fwdPass_eq_gPass]
+    exact gPass_nocrash env _ _ _ _ (fwdPlace_ext' env) (PassInv env) (· ∈ mem) env.n
+      (fun σ σ' t _ v _ hi ht _ h => fwdPlace_passInv env σ σ' t v hi ht h)
+      (fun σ t _ v _ hi ht hk => fwdPlace_nocrash env σ t v hi.2.1 hi.1.pos (place_kids_full env σ t hi ht hk))
+      hkids hlinks (members_lt env hw mem hm) (fwd_call_acyclic env hw mem hm hwait)
+      (env.n + 1) [] σ r env.bound hrm hi trivial (fun x hx => by cases hx) (by simp)
+  · intro σ' h
+    exact fwdPass_inv env (PassInv env) (· ∈ mem)
+      (fun σ σ' t v _ hi ht _ h => fwdPlace_passInv env σ σ' t v hi ht h) hkids hlinks _ _ _ _ _ _ hrm hi h
+
+theorem bwdRun_nocrash (env : Env) (f0 : Uid → Fields) (res0 : List (Option Nat × Cal)) (hw : WFE env)
+    (hc : CalsOK res0) (mem : List Uid) (hm : members env = some mem)
+    (hwait : ∀ l ∈ mem, (env.info l).children.isEmpty = true → ¬ TC (waitsE env) l l) :
+    NoCrash (bwdRun env f0 res0) := by
+  have hfl : ∀ t, (env.info t).member = true ↔ t ∈ mem := fun t => by
+    rw [← memberList_eq env mem hm]; exact hw.flags t
+  have hkids : ∀ t c, t ∈ mem → c ∈ (env.info t).children → c ∈ mem := fun t c ht hc =>
+    members_children env mem hm t ht c hc
+  have hlinks : ∀ t p, t ∈ mem → p ∈ (env.info t).succs → (env.info p).member = (env.info t).member → p ∈ mem :=
+    fun t p ht _ he => (hfl p).1 (he.trans ((hfl t).2 ht))
+  unfold bwdRun
+  rw [hm]
+  refine NoCrash.bind (NoCrash.pure _) ?_
+  intro mem' hmem'
+  cases hmem'
+  refine NoCrash.bind ?_ (fun _ _ => NoCrash.pure _)
+  refine passList_nocrash (PassInv env) _ _ ?_ _ (PassInv.init env _ rfl rfl hc)
+  intro σ r hr hi
+  have hrm : r ∈ mem := members_root env mem hm r (List.mem_reverse.1 hr)
+  constructor
+  · rw [bwdPass_eq_gPass]
+    exact gPass_nocrash env _ _ _ _ (bwdPlace_ext' env) (PassInv env) (· ∈ mem) env.n
+      (fun σ σ' t m v _ hi ht _ h => bwdPlace_passInv env σ σ' t m v hi ht h)
+      (fun σ t m v _ hi ht hk => bwdPlace_nocrash env σ t m v hi.2.1 hi.1.pos
+        (place_kids_full env σ t hi ht (fun c hc => hk c (List.mem_reverse.2 hc))))
+      (fun t c ht hc => hkids t c ht (List.mem_reverse.1 hc)) hlinks (members_lt env hw mem hm)
+      (bwd_call_acyclic env hw mem hm hwait)
+      (env.n + 1) [] σ r env.bound hrm hi trivial (fun x hx => by cases hx) (by simp)
+  · intro σ' h
+    exact bwdPass_inv env (PassInv env) (· ∈ mem)
+      (fun σ σ' t m v _ hi ht _ h => bwdPlace_passInv env σ σ' t m v hi ht h) hkids hlinks _ _ _ _ _ _ hrm hi h
+
+/-! ### the two `calc` entry points -/
+
+theorem fwdPrecheck_eq (env : Env) (f0 : Uid → Fields) (mem : List Uid) (hm : members env = some mem) :
+    fwdPrecheck env f0 =
+      if isolationOk env f0 mem = false then .error .runtime
+      else match checkLoops env mem with
+        | .error e => .error e
+        | .ok _ =>
+          if mem.any (fun t => match (f0 t).end_ with | some e => decide (env.clock 0 < e) | none => false) = true
+          then .error .runtime else .ok () := by
+  unfold fwdPrecheck
+  rw [hm]
+  cases hi : isolationOk env f0 mem <;> cases hc : checkLoops env mem <;>
+    simp only [bind, Except.bind, pure, Except.pure, throw, throwThe, MonadExceptOf.throw, hc, hi]
+  all_goals rfl
+
+theorem bwdPrecheck_eq (env : Env) (f0 : Uid → Fields) (mem : List Uid) (hm : members env = some mem) :
+    bwdPrecheck env f0 =
+      if isolationOk env f0 mem = false then .error .runtime else checkLoops env mem := by
+  unfold bwdPrecheck
+  rw [hm]
+  cases hi : isolationOk env f0 mem <;>
+    simp only [bind, Except.bind, pure, Except.pure, throw, throwThe, MonadExceptOf.throw, hi]
+  all_goals rfl
+
+theorem fwdPrecheck_nocrash (env : Env) (f0 : Uid → Fields) (hw : WFE env) : NoCrash (fwdPrecheck env f0) := by
+  obtain ⟨mem, hm⟩ := hw.members_total
+  rw [fwdPrecheck_eq env f0 mem hm]
+  split
+  · exact NoCrash.runtime
+  · have hnc := checkLoops_nocrash env hw mem (members_lt env hw mem hm)
+    split
+    · rename_i e he
+      intro k hk
+      cases hk
+      exact hnc k he
+    · split
+      · exact NoCrash.runtime
+      · exact NoCrash.ok _
+
+theorem bwdPrecheck_nocrash (env : Env) (f0 : Uid → Fields) (hw : WFE env) : NoCrash (bwdPrecheck env f0) := by
+  obtain ⟨mem, hm⟩ := hw.members_total
+  rw [bwdPrecheck_eq env f0 mem hm]
+  split
+  · exact NoCrash.runtime
+  · exact checkLoops_nocrash env hw mem (members_lt env hw mem hm)
+
+theorem fwdPrecheck_ok (env : Env) (f0 : Uid → Fields) (mem : List Uid) (hm : members env = some mem)
+    (h : fwdPrecheck env f0 = .ok ()) : checkLoops env mem = .ok () := by
+  rw [fwdPrecheck_eq env f0 mem hm] at h
+  split at h
+  · cases h
+  · split at h
+    · cases h
+    · rename_i u hu
+      exact hu
+
+theorem bwdPrecheck_ok (env : Env) (f0 : Uid → Fields) (mem : List Uid) (hm : members env = some mem)
+    (h : bwdPrecheck env f0 = .ok ()) : checkLoops env mem = .ok () := by
+  rw [bwdPrecheck_eq env f0 mem hm] at h
+  split at h
+  · cases h
+  · exact h
+
+theorem forwardCalc_nocrash (env : Env) (f0 : Uid → Fields) (res0 : List (Option Nat × Cal)) (hw : WFE env)
+    (hc : CalsOK res0) : NoCrash (forwardCalc env f0 res0) := by
+  obtain ⟨mem, hm⟩ := hw.members_total
+  unfold forwardCalc
+  refine NoCrash.bind (fwdPrecheck_nocrash env f0 hw) ?_
+  intro u hu
+  exact fwdRun_nocrash env f0 res0 hw hc mem hm (checkLoops_ok env mem (fwdPrecheck_ok env f0 mem hm hu))
+
+theorem backwardCalc_nocrash (env : Env) (f0 : Uid → Fields) (res0 : List (Option Nat × Cal)) (hw : WFE env)
+    (hc : CalsOK res0) : NoCrash (backwardCalc env f0 res0) := by
+  obtain ⟨mem, hm⟩ := hw.members_total
+  unfold backwardCalc
+  refine NoCrash.bind (bwdPrecheck_nocrash env f0 hw) ?_
+  intro u hu
+  exact bwdRun_nocrash env f0 res0 hw hc mem hm (checkLoops_ok env mem (bwdPrecheck_ok env f0 mem hm hu))
+
+theorem c14Outcome_of_nocrash (r : Res Output) (h : NoCrash r) : c14Outcome r = true := by
+  rcases h.cases with ⟨a, rfl⟩ | rfl <;> rfl
+
+/-! ### the diagnoses -/
+
+theorem reachB_sound (next : Uid → List Uid) (t : Uid) : ∀ (k : Nat) (seen frontier : List Uid),
+    (∀ x ∈ seen, TC (fun a b => b ∈ next a) t x) → (∀ x ∈ frontier, x = t ∨ TC (fun a b => b ∈ next a) t x) →
+    ∀ x ∈ reachB next k seen frontier, TC (fun a b => b ∈ next a) t x := by
+  intro k
+  induction k with
+  | zero => intro seen frontier hs _ x hx; exact hs x hx
+  | succ k ih =>
+    intro seen frontier hs hf x hx
+    simp only [reachB] at hx
+    have hnew : ∀ y ∈ (frontier.flatMap next).eraseDups.filter (fun x => !seen.contains x),
+        TC (fun a b => b ∈ next a) t y := by
+      intro y hy
+      have hy' := List.mem_eraseDups.1 (List.mem_filter.1 hy).1
+      obtain ⟨z, hz, hyz⟩ := List.mem_flatMap.1 hy'
+      rcases hf z hz with rfl | hz'
+      · exact TC.single hyz
+      · exact TC.tail hz' hyz
+    split at hx
+    · exact hs x hx
+    · refine ih _ _ ?_ (fun y hy => Or.inr (hnew y hy)) x hx
+      intro y hy
+      rcases List.mem_append.1 hy with hy | hy
+      · exact hs y hy
+      · exact hnew y hy
+
+theorem reachFrom_sound (next : Uid → List Uid) (n : Nat) (t x : Uid) (h : x ∈ reachFrom next n t) :
+    TC (fun a b => b ∈ next a) t x :=
+  reachB_sound next t (n + 1) [] [t] (fun _ hx => by cases hx) (fun y hy => Or.inl (by simpa using hy)) x h
+
+theorem waitCycle_spec (env : Env) (mem : List Uid) (hm : members env = some mem) (h : waitCycle env = true) :
+    ∃ l ∈ mem, (env.info l).children.isEmpty = true ∧ TC (waitsE env) l l := by
+  unfold waitCycle at h
+  rw [memberList_eq env mem hm, List.any_eq_true] at h
+  obtain ⟨l, hl, hc⟩ := h
+  obtain ⟨hlm, hleaf⟩ := List.mem_filter.1 hl
+  exact ⟨l, hlm, hleaf, reachFrom_sound _ _ _ _ (List.contains_iff_mem.1 hc)⟩
+
+theorem forwardCalc_diagnoses (env : Env) (f0 : Uid → Fields) (res0 : List (Option Nat × Cal)) (hw : WFE env)
+    (hd : c14MustDiagnose env f0 true = true) : forwardCalc env f0 res0 = .error .runtime := by
+  obtain ⟨mem, hm⟩ := hw.members_total
+  have hpre : fwdPrecheck env f0 = .error .runtime := by
+    rw [fwdPrecheck_eq env f0 mem hm]
+    unfold c14MustDiagnose at hd
+    rw [memberList_eq env mem hm] at hd
+    simp only [Bool.or_eq_true, Bool.and_eq_true, Bool.not_eq_true', true_and] at hd
+    split
+    · rfl
+    · rename_i hiso
+      have hnc := checkLoops_nocrash env hw mem (members_lt env hw mem hm)
+      rcases hnc.cases with ⟨u, hu⟩ | he
+      · rw [hu]
+        simp only
+        rcases hd with (hd | hd) | hd
+        · exact absurd hd hiso
+        · obtain ⟨l, hl, hleaf, hcyc⟩ := waitCycle_spec env mem hm hd
+          rw [checkLoops_cycle env hw mem (members_lt env hw mem hm) l hl hleaf hcyc] at hu
+          cases hu
+        · exact if_pos hd
+      · rw [he]
+  unfold forwardCalc
+  rw [hpre]
+  rfl
+
+theorem backwardCalc_diagnoses (env : Env) (f0 : Uid → Fields) (res0 : List (Option Nat × Cal)) (hw : WFE env)
+    (hd : c14MustDiagnose env f0 false = true) : backwardCalc env f0 res0 = .error .runtime := by
+  obtain ⟨mem, hm⟩ := hw.members_total
+  have hpre : bwdPrecheck env f0 = .error .runtime := by
+    rw [bwdPrecheck_eq env f0 mem hm]
+    unfold c14MustDiagnose at hd
+    rw [memberList_eq env mem hm] at hd
+    simp only [Bool.or_eq_true, Bool.not_eq_true', Bool.false_and, Bool.or_false] at hd
+    split
+    · rfl
+    · rename_i hiso
+      rcases hd with hd | hd
+      · exact absurd hd hiso
+      · obtain ⟨l, hl, hleaf, hcyc⟩ := waitCycle_spec env mem hm hd
+        exact checkLoops_cycle env hw mem (members_lt env hw mem hm) l hl hleaf hcyc
+  unfold backwardCalc
+  rw [hpre]
+  rfl
+
 end Pj
